@@ -182,7 +182,7 @@ pub fn _pop(chars: &mut CharStack, sym: &Str) -> (r: RvResult<char>)
 //@ item mode file=src/sys/fs/chmod.rs fn=mode props=C11,C12
 //@ sig pub(crate) fn mode(entry: &VfsEntry, octal: u32, sym: &str) -> RvResult<u32>
 //@ rw R5 * re⟦VfsError::(\w+)\(sym\.to_string\(\)\)\.into\(\)⟧ => ⟦VfsError::\1_().into()⟧
-//@ rw R4 1 ⟦let mut chars: Vec<char> = sym.chars().rev().collect();⟧ => ⟦let mut chars: CharStack = rev_chars(sym);⟧
+//@ rw R4 * ⟦let mut chars: Vec<char> = sym.chars().rev().collect();⟧ => ⟦let mut chars: CharStack = rev_chars(sym);⟧
 //@ rw R9 1 ⟦let mut group = 0;⟧ => ⟦let mut group: u32 = 0;⟧
 //@ rw R9 1 ⟦let mut perm = 0;⟧ => ⟦let mut perm: u32 = 0;⟧
 //@ loop 1
